@@ -419,10 +419,12 @@ def astar (n : Nat) (E : List (Edge Int)) (s : Nat) (T : List Nat) (h : List Int
     (if wnum = wden then .OPTIMAL else .FEASIBLE)
 
 /-- The potential the Dijkstra / A* mirror hands to `distCert` when it stops at a goal of cost
-`c`: `min (g v) c` on nodes with a `g`, `c` elsewhere (exact on the closed nodes, a lower bound
-elsewhere when all weights are non-negative). -/
-def cappedPot (n : Nat) (g : Tab Int) (c : Int) : Tab Int :=
-  (List.range n).map fun v => match look g v with | some x => some (if x < c then x else c) | none => some c
+`c` with heuristic `h` (`h = 0` for Dijkstra): `min (g v) (c - h v)` (`c - h v` where `g` is
+unknown).  It is Dijkstra's capped `g` map on the reduced weights `w + h v - h u`. -/
+def astarPot (n : Nat) (g : Tab Int) (h : List Int) (c : Int) : Tab Int :=
+  (List.range n).map fun v =>
+    let b := c - h.getD v 0
+    match look g v with | some x => some (if x < b then x else b) | none => some b
 
 /-- `dijkstra_edges(..., target=None)`: the lazy-deletion loop with `(dist, node)` heap entries
 (ties on `dist` are broken by the node index). -/
